@@ -1,7 +1,7 @@
 from . import COMMON_TB, NOTE
 
 PROP = {
-    "modules": ["Proofs.C15", "Proofs.C15Heap"],
+    "modules": ["Proofs.C15", "Proofs.C15Heap", "Proofs.Budget"],
     "streams": [{"name": "arrf"}, {"name": "alias"}],
     "rule": "arrf: every array of length 0..4 over {0, 1, 2, -1, 1.5, \"a\", \"b\", \"B\", nil} (7 381 arrays; quick gives the 6 561 "
             "arrays of length 4 in the []any representation only) x 20 filter calls (compact reverse first last uniq size, concat with "
@@ -48,7 +48,7 @@ PROP = {
         "more than 12 elements where Less is not a strict weak order the model answers unmodelled and only the permutation clause "
         "is checked, by the oracle",
         "outside the model (counted as unmodelled): pointer identity in uniq, fmt of pointers, "
-        "ranges of more than a million items (the case folding of sort_natural is total: every rune is looked up in the tables of "
+        "the array of a range of more than a million items IN THE MODEL BINARY ONLY: the number is the default of the `budget` argument of `convert`, a parameter of the executable model without a counterpart in the code (whose own limit, maxRangeArrayLen = 10^7 items, is modelled as the TypeError it is); the theorems hold for every budget: a range within the code's limit converts to its integers under every budget >= b - a (as_array, range_to_array_any_size), and raising the budget never changes a conversion or a filter application that gave an answer (budget_monotone_convert, budget_monotone_filter; for a whole render budget_monotone_std of Proofs.C11). The Go-heap model of Liquid/Heap.lean calls `convert` with the default budget (the case folding of sort_natural is total: every rune is looked up in the tables of "
         "unicode.ToUpper / unicode.ToLower regenerated from the toolchain, Liquid/Generated/CaseTables.lean)",
         "Liquid/Heap.lean describes Go's slice operations (index, element assignment, reslice, make, append with its in-place case, "
         "copy) and, line by line, values.Convert(v, []any) as convertCallArguments uses it and the bodies of compact concat join map "
